@@ -115,6 +115,45 @@ Definition n_options (c : cfg) (b : bool) : list (N * bytes) :=
       else []).
 
 (* ---------------------------------------------------------------- *)
+(* The constructor's value domain: dhcp4_spoofer.Config + NICInfo as the caller gives them, what
+   (Config).New accepts and what it normalises.  Config.DNSServer is a netip.Addr in any of its forms. *)
+Inductive dnsval :=
+| DnsZero                 (* the zero Addr{}: field left unset *)
+| DnsV4 (x : ip)          (* plain IPv4, 0.0.0.0 included *)
+| DnsMapped (x : ip)      (* ::ffff:a.b.c.d (what AddrFromSlice of a 16-byte net.IP gives) *)
+| DnsV6.                  (* any other IPv6 address, :: included *)
+
+Record rawcfg := mkRaw {
+  r_mode : N;                          (* Config.Mode, any int32 *)
+  r_hostip : ip; r_hostmac : mac; r_routerip : ip; r_routermac : mac;
+  r_homeip : ip; r_homebits : N;       (* NICInfo.HomeLAN4 *)
+  r_nfip : ip; r_nfbits : N;           (* Config.NetfilterIP (an IPv4 prefix) *)
+  r_dns : dnsval
+}.
+
+(* New: Mode outside {1,2,3} becomes 3 (secondary-nice) *)
+Definition norm_mode (m : N) : N := if (m =? 1) || (m =? 2) || (m =? 3) then m else 3.
+(* New (fix for the non-IPv4 forms: Unmap, then anything that is not IPv4 defaults like the zero value):
+   the DNS server handed to non-captured clients *)
+Definition norm_dns (router : ip) (d : dnsval) : ip :=
+  match d with DnsZero => router | DnsV4 x => x | DnsMapped x => x | DnsV6 => router end.
+
+(* New + newSubnet (x2): the configurations that are accepted, normalised.  Rejected: netfilter address outside
+   the home LAN or netfilter prefix wider than the home LAN or longer than /32; a subnet whose first address
+   (network address + 1) is not inside it (/32); the router outside the home LAN; DNS server 0.0.0.0 *)
+Definition new_cfg (r : rawcfg) : option cfg :=
+  let dns := norm_dns (r_routerip r) (r_dns r) in
+  if pcontains (r_homeip r) (r_homebits r) (r_nfip r)
+     && (r_homebits r <=? r_nfbits r) && (r_nfbits r <=? 32) && (r_homebits r <=? 32)
+     && pcontains (r_homeip r) (r_homebits r) (pnet (r_homeip r) (r_homebits r) + 1)
+     && pcontains (r_nfip r) (r_nfbits r) (pnet (r_nfip r) (r_nfbits r) + 1)
+     && pcontains (r_homeip r) (r_homebits r) (r_routerip r)
+     && negb (dns =? 0)
+  then Some (fresh_cfg (norm_mode (r_mode r)) (r_hostip r) (r_hostmac r) (r_routerip r) (r_routermac r)
+                       (r_homeip r) (r_homebits r) (r_nfip r) (r_nfbits r) dns)
+  else None.
+
+(* ---------------------------------------------------------------- *)
 (* session side *)
 
 Record sess := mkSess {
